@@ -151,6 +151,36 @@ pub fn run(ctx: &mut Ctx) {
             }
         }
     }
+    // sorted haystacks with one foreign element: ascending numbers with a non-number (null, a string, an
+    // array, a number out of order) at each position class; every present number must be found, wherever
+    // the foreign element sits, and absent ones not
+    for n in al::size_classes(ctx.tier_thorough) {
+        if !ctx.mine() || n > 300 {
+            continue;
+        }
+        let step = if n > 40 { n / 9 + 1 } else { 1 };
+        for foreign in [json!(null), json!("n/a"), json!([3]), json!(-1), json!(1e9)] {
+            let mut pos = 0;
+            while pos < n {
+                ctx.edge();
+                let hay: Vec<Value> = (0..n).map(|i| if i == pos { foreign.clone() } else { json!(i) }).collect();
+                let dh = json!({"h": hay});
+                for needle in [0usize, 1, pos.saturating_sub(1), pos, pos + 1, n / 2, n - 2, n - 1, n] {
+                    ctx.check("in:sorted-haystack", &json!({"in": [needle, {"var": "h"}]}), &dh);
+                }
+                ctx.check("in:sorted-haystack:float", &json!({"in": [(n / 3) as f64, {"var": "h"}]}), &dh);
+                ctx.check("in:sorted-haystack:foreign", &json!({"in": [foreign, {"var": "h"}]}), &dh);
+                pos += step;
+            }
+        }
+        // strings sorted, needle string; descending numbers
+        let hs: Vec<Value> = (0..n).map(|i| json!(format!("k{:04}", i))).collect();
+        ctx.check("in:sorted-haystack:strings", &json!({"in": [format!("k{:04}", n - 1), hs]}), &null);
+        let desc: Vec<Value> = (0..n).rev().map(|i| json!(i)).collect();
+        for needle in [0usize, n / 2, n - 1, n] {
+            ctx.check("in:sorted-haystack:descending", &json!({"in": [needle, desc]}), &null);
+        }
+    }
     // spelling twins: the needle's twin (other type, same spelling) sits in a long haystack
     for n in al::size_classes(ctx.tier_thorough) {
         if !ctx.mine() {
@@ -279,4 +309,5 @@ pub fn run(ctx: &mut Ctx) {
     crate::spaces::render_probes(ctx, &["merge", "in"]);
     crate::spaces::width_probes(ctx);
     crate::spaces::type_grid_probes(ctx, &["merge", "in"]);
+    crate::spaces::depth_probes(ctx);
 }
